@@ -58,7 +58,7 @@ def oracle(case, stats=None):
     lens, tree = case["lens"], case["tree"]
     xs = [variable(l, "x%d" % i) for i, l in enumerate(lens)]
     vals = [[np.array(v, dtype=float) for v in vs] for vs in case["vals"]]
-    flags = dict(sparse=case["sparse"])
+    flags = dict(sparse=case["sparse"], record=[], consumed=set())
     try:
         L, curv, ref0 = rm.evaluate(tree, lens, vals[0])
         ref_ok = True
@@ -104,6 +104,21 @@ def oracle(case, stats=None):
         if got.shape != ref.shape or not np.array_equal(got, ref):
             raise Violation("f.value() = %r but the formula gives %r (x = %r) -- tree %r" % (
                 got.tolist(), ref.tolist(), [v.tolist() for v in vs], tree))
+    # operands are not modified by the operations they take part in: every sub-expression object that was built on
+    # the way (and not legitimately updated by an in-place operator) still evaluates to its own formula
+    for x, v in zip(xs, vals[0]):
+        x.value = matrix(v.tolist(), (len(v), 1), "d")
+    for sub, obj in flags["record"]:
+        if obj is f or id(obj) in flags["consumed"] or not isinstance(obj, (M._function, variable)):
+            continue
+        try:
+            _, _, rsub = rm.evaluate(sub, lens, vals[0])
+        except rm.Invalid:
+            continue
+        gsub = fval(obj if isinstance(obj, M._function) else +obj)
+        if gsub is None or gsub.shape != rsub.shape or not np.array_equal(gsub, rsub):
+            raise Violation("after building %r its operand %r evaluates to %r, its own formula gives %r: an operation modified its operand"
+                            % (tree, sub, None if gsub is None else gsub.tolist(), rsub.tolist()))
     # None-ness tracks exactly the variables of f
     k = case["none_var"]
     xs[k].value = None
